@@ -41,13 +41,17 @@ class Ref:
         # optional, so it can be consumed twice) - only used to recognise the registered finding
         self.each_twice = each_twice
         self.ws, self.kw = ws, keyword_chars
+        self.order, self.assigned_at = {}, {}
         self.node_ws = {}    # copies made with set_whitespace_chars: the copy itself skips its own set, then runs its
         #                      expression without a further leading skip (the element was pre-parsed by the copy)
-        for st in prog:
+        for idx, st in enumerate(prog):
             var, op, *a = st
+            if var != "_":
+                self.order[var] = idx
             if var == "_":
                 if op == "<<=":
                     self.fwd[a[0]] = a[1]
+                    self.assigned_at[a[0]] = idx
                 else:
                     raise Unsupported(op)
             elif op == "set_whitespace_chars":
@@ -66,9 +70,14 @@ class Ref:
         self.steps = 0
         # the reading is structural; pyparsing copies whitespace flags into wrappers when they are CONSTRUCTED, so a
         # Forward whose body (assigned later) does not skip is outside the class the reading covers (DESIGN §4.3 WF)
+        # ... unless every expression that refers to the Forward was built AFTER the assignment (then the copied flags are
+        # the assigned ones; `f <<= e` gives the Forward e's own skipWhitespace)
         for f, b in self.fwd.items():
             if not self.skips(b):
-                raise Unsupported("Forward body does not skip whitespace")
+                for v, (op, a) in list(self.defs.items()):
+                    refs = [y for y in a if isinstance(y, str)] + [z for y in a if isinstance(y, list) for z in y if isinstance(z, str)]
+                    if f in refs and self.order.get(v, -1) < self.assigned_at.get(f, 1 << 30):
+                        raise Unsupported("Forward body does not skip whitespace and is referenced before its assignment")
         # error stops: which elements a '-' protects follows streamline()'s flattening; that is unambiguous for chains
         # written with binary + / - (flattened completely), not for a sequence containing '-' that is itself an element
         # of And([...]) / e*n / e[m,n] / DelimitedList(e) (flattened or not depending on the arity) - outside the reading
